@@ -58,6 +58,27 @@ def run_seed(args):
         shutil.rmtree(tmp, ignore_errors=True)
 
 
+def matrix_for_property(prop, jobs=8, root=None):
+    """{breaking: {seed: 'V'|'U'|'-'}, benign: {...}} for the seeds filed for `prop` (patched scratch copies, analysed statically)."""
+    root = root or os.path.join(os.path.dirname(HERE), 'seeded')
+    seeds = []
+    for base, benign in ((root, False), (os.path.join(root, 'benign'), True)):
+        if not os.path.isdir(base):
+            continue
+        for d in sorted(os.listdir(base)):
+            if d.startswith(prop + '-') and os.path.exists(os.path.join(base, d, 'patch.diff')):
+                seeds.append((('benign/' if benign else '') + d, os.path.join(base, d, 'patch.diff'), [prop]))
+    out = {'breaking': {}, 'benign': {}}
+    if not seeds:
+        return out
+    with ProcessPoolExecutor(jobs) as ex:
+        for name, res in ex.map(run_seed, seeds):
+            r = res.get(prop, {}) if 'error' not in res else {'error': res['error']}
+            flag = 'error' if 'error' in r else ('V' if r.get('V') else ('U' if r.get('U') else '-'))
+            out['benign' if name.startswith('benign/') else 'breaking'][name.split('/')[-1]] = flag
+    return out
+
+
 def main():
     ap = argparse.ArgumentParser()
     ap.add_argument('--dir', default=os.path.join(os.path.dirname(HERE), 'seeded'))
